@@ -168,7 +168,8 @@ def _format_resname(res):
     out = ''
     if chain:
         out += chain + '-'
-    resname = res.get('resname')
+    # The residue name is optional in a residue specification.
+    resname = res.get('resname') or ''
     out += resname
     if resname and resname[-1].isdigit():
         out += '#'
